@@ -468,6 +468,11 @@ fn scenarios() -> Vec<(&'static str, Vec<String>, bool)> {
         vec!["10 FOR I=1 TO 9000:FOR J=1 TO 2".into(), "20 FOR K=1 TO 3:FOR L=1 TO 3:IF L=2 THEN 40".into(), "30 NEXT L,K".into(), "40 NEXT J,I".into(), "50 PRINT \"DONE\";I".into(), "RUN".into()],
         false,
     ));
+    v.push((
+        "terminates: a loop left by GOTO lies between the two loops of NEXT J,I",
+        vec!["10 FOR I=1 TO 9000".into(), "20 FOR K=1 TO 3:GOTO 30".into(), "30 FOR J=1 TO 2".into(), "40 NEXT J,I".into(), "50 IF I=9001 AND J=3 THEN PRINT \"DONE\"".into(), "RUN".into()],
+        false,
+    ));
     v
 }
 
@@ -756,13 +761,22 @@ const DIRECT_UNITS: &[&str] = &[
     "PRINT 1,2;3", "?", "REM x", "' x", "LET", "NEW",
 ];
 
+/// Direct lines that open a loop and then jump into the program: against a program the execution
+/// gate refuses, the refusal takes the open frame with it (against a program that runs, the
+/// frame would legitimately stay: an abandoned FOR).
+const GATED_UNITS: &[&str] = &["FOR I=1 TO 2:GOTO 10", "FOR J=1 TO 2:GOSUB 100:NEXT", "FOR I=1 TO 2:FOR J=1 TO 2:ON 1 GOTO 10", "FOR I=1 TO 2:IF 1 THEN 10", "FOR I=1 TO 2:RUN 10"];
+
 fn check_direct_residue(t: &mut Tape, ctx: &Ctx) -> Outcome {
     let si = t.below(STORES.len());
     let run_first = si == 1 && t.chance(1, 3);
     let n = 1 + t.below(3);
     let mut units = vec![];
     for _ in 0..n {
-        units.push(*t.pick(DIRECT_UNITS));
+        if si >= 2 && t.chance(1, 8) {
+            units.push(*t.pick(GATED_UNITS));
+        } else {
+            units.push(*t.pick(DIRECT_UNITS));
+        }
     }
     direct_residue(si, run_first, &units.join(":"), ctx)
 }
@@ -771,7 +785,7 @@ fn check_direct_residue(t: &mut Tape, ctx: &Ctx) -> Outcome {
 fn gen_direct_cases(part: usize, parts: usize, _th: bool, emit: &mut dyn FnMut(&str)) {
     let mut idx = 0;
     for si in 0..STORES.len() {
-        for u in DIRECT_UNITS {
+        for u in DIRECT_UNITS.iter().chain(GATED_UNITS.iter().filter(|_| si >= 2)) {
             idx += 1;
             if idx % parts == part {
                 emit(&format!("{}|{}", si, u));
